@@ -28,7 +28,7 @@ def main():
                 rc_clean, _ = sh(f"/venv/bin/python {out}/demo{k}.py {wt}", cwd="/tmp")
                 rc_apply, o = sh(f"git apply {diff}", cwd=wt)
                 rc_mut, demo_out = sh(f"/venv/bin/python {out}/demo{k}.py {wt}", cwd="/tmp")
-                rc_t, t_out = sh("/venv/bin/python -m pytest -q -p no:cacheprovider --timeout=900 -q -x --deselect tests/test_sample_method.py::SampleMethodTestCase::test_sample_with_save_every --deselect tests/test_sampler_features.py::SamplerFeaturesTestCase::test_custom_output_dir --deselect tests/test_state.py::SamplerStateTestCase::test_resume 2>&1 | tail -3", cwd=wt)
+                rc_t, t_out = sh("/venv/bin/python -m pytest -q -p no:cacheprovider --timeout=900 -x --deselect tests/test_sample_method.py::SampleMethodTestCase::test_sample_with_save_every --deselect tests/test_sampler_features.py::SamplerFeaturesTestCase::test_custom_output_dir --deselect tests/test_state.py::SamplerStateTestCase::test_resume 2>&1 | tail -3", cwd=wt)
                 confirmed = rc_clean == 0 and rc_apply == 0 and rc_mut == 1 and "failed" not in t_out and "error" not in t_out.lower()
                 meta = json.loads((out / f"meta{k}.json").read_text()) if (out / f"meta{k}.json").exists() else {}
                 meta.update(dict(property=pid, confirmed_by_main_session=confirmed, demo_clean_exit_confirmed=rc_clean,
